@@ -292,6 +292,61 @@ def opC12Roundtrip : List String → Res
     | _, _, _, _, _ => bad
   | _ => bad
 
+/-! C11 -/
+
+def hx (b : Bytes) : String := hexOf b
+
+def aggCode : AggOp → Nat
+  | .undef => 0 | .count => 1 | .sum => 2 | .min => 3 | .max => 4 | .last => 5 | .avg => 6 | .len => 7
+def ftCode : FType → Nat
+  | .field => 1 | .string => 2 | .float => 3 | .funcs => 4
+def qopCode : QOp → Nat
+  | .strEq => 1 | .strNe => 2 | .contains => 3 | .notContains => 4 | .hasPrefix => 5 | .notHasPrefix => 6
+  | .hasSuffix => 7 | .notHasSuffix => 8 | .fEq => 10 | .fNe => 11 | .fLt => 12 | .fLe => 13 | .fGt => 14 | .fGe => 15
+
+def vjoin (l : List String) : String := if l.isEmpty then "none" else joinWith "," l
+
+def dumpQuery (q : Query) : String :=
+  let sel := q.sel.map fun s => s!"{hx s.field}|{hx s.storage}|{aggCode s.op}"
+  let whr := q.whr.map fun w => s!"{ftCode w.lType}|{hx w.lStr}|{hx w.lFloat}|{qopCode w.op}|{ftCode w.rType}|{hx w.rStr}|{hx w.rFloat}"
+  let set := q.set.map fun c => s!"{hx c.lStr}|{ftCode c.rType}|{hx c.rStr}|{hx c.rFloat}|{hx (joinByte 43 c.funcs)}"
+  let out := match q.outfile with | none => "none" | some (p, a) => s!"{hx p}/{boolStr a}"
+  s!"sel={vjoin sel};table={hx q.table};where={vjoin whr};set={vjoin set};group={vjoin (q.groupBy.map hx)};order={hx q.orderBy};rev={boolStr q.reverse};key={hx q.groupKey};interval={q.interval};limit={q.limit};outfile={out};logformat={hx q.logFormat}"
+
+def floatTableOf (s : String) : FloatOracle :=
+  let rows := if s = "-" then [] else (s.splitOn ",").filterMap fun r =>
+    match r.splitOn "=" with
+    | [k, v] => match unhex k, unhex v with
+      | some k, some v => some (k, v)
+      | _, _ => none
+    | _ => none
+  fun t => (rows.find? (·.1 == t)).map (·.2)
+
+def c11tags (q : Bytes) (r : Outcome (Option Query)) : String :=
+  match r with
+  | .ok (some p) => joinWith "," (["ok"] ++ (if p.whr.length > 0 then ["where"] else []) ++ (if p.set.length > 0 then ["set"] else [])
+      ++ (if p.orderBy ≠ [] then ["order"] else []) ++ (if p.outfile.isSome then ["outfile"] else [])
+      ++ (if q.contains QUOTE then ["quoted"] else []) ++ (if q.contains BACKTICK then ["backquote"] else [])
+      ++ (if p.sel.any (·.op != .last) then ["agg"] else []) ++ (if p.groupKey ≠ [] then ["group"] else []))
+  | .ok none => "empty"
+  | .err e => "err:" ++ ((e.splitOn " ").take 2 |> joinWith "_")
+  | .panic _ => "panic"
+
+def opC11Parse : List String → Res
+  | [qh, expected, table] => match unhex qh with
+    | some q =>
+      let r := newQuery (floatTableOf table) q
+      let m := match r with
+        | .ok (some p) => dumpQuery p
+        | .ok none => "NIL"
+        | .err _ => "ERR"
+        | .panic p => "PANIC " ++ p
+      { m := m, s := if expected = "-" then "-" else
+          (match unhex expected with | some e => String.fromUTF8! ⟨e.toArray⟩ | none => "-"),
+        t := c11tags q r }
+    | none => bad
+  | _ => bad
+
 def dispatch (line : String) : Res :=
   match (line.splitOn " ").filter (· ≠ "") with
   | "c01.reader" :: a => opC01Reader a
@@ -302,6 +357,7 @@ def dispatch (line : String) : Res :=
   | "c10.decode" :: a => opC10Decode a
   | "c10.run" :: a => opC10Run a
   | "c12.roundtrip" :: a => opC12Roundtrip a
+  | "c11.parse" :: a => opC11Parse a
   | "c16.colorfy" :: a => opC16Colorfy a
   | "c16.write" :: a => opC16Write a
   | "c18.list" :: a => opC18List a
